@@ -172,6 +172,7 @@ class AbsInt:
         self.inlined = set()
         self.global_overrides = {}      # (module name, global name) -> abstract value
         self._yields = []               # collectors of the generators being (eagerly) evaluated
+        self.module_globals = {}        # module name -> ADict written through globals()
         self.method_hooks = []          # callables (interp, base, name, args, kwargs, node) -> value | _NO
 
     # --------------------------------------------------------------- explore
@@ -576,6 +577,8 @@ class AbsInt:
             return Opaque(e.attr)
         if isinstance(base, ExtRef):
             return ExtRef(f'{base.name}.{e.attr}')
+        if hasattr(base, 'absint_getattr'):
+            return base.absint_getattr(self, e.attr, e)
         if _is_concrete(base) and not isinstance(base, (list, dict, set)) and not hasattr(base, e.attr):
             raise AbsRaise('AttributeError', e, implicit=True, msg=e.attr)
         return ('attr', base, e.attr)
@@ -1120,6 +1123,15 @@ class AbsInt:
 
     _v_GeneratorExp = _v_ListComp
 
+    def _v_SetComp(self, e, env, m):
+        r = self._v_ListComp(e, env, m)
+        if isinstance(r, AList) and not r.has_var() and all(_is_concrete(x) for x in r.items):
+            try:
+                return set(r.items)
+            except TypeError:
+                raise AbsRaise('TypeError', e, implicit=True)
+        return Opaque('set comprehension over symbolic values')
+
     def _v_DictComp(self, e, env, m):
         out = {}
 
@@ -1147,6 +1159,19 @@ class AbsInt:
                 kwargs[kw.arg] = v
         if isinstance(e.func, ast.Name) and e.func.id == 'isinstance' and 'isinstance' not in env and len(args) == 2:
             return self.isinstance_(args, e)
+        if isinstance(e.func, ast.Name) and e.func.id == 'hasattr' and 'hasattr' not in env and len(args) == 2 \
+                and hasattr(args[0], 'absint_hasattr') and isinstance(args[1], str):
+            return args[0].absint_hasattr(args[1])
+        if isinstance(e.func, ast.Name) and e.func.id == 'dir' and 'dir' not in env and len(args) == 1 and isinstance(args[0], AObj):
+            names = set(args[0].attrs)
+            if args[0].cls is not None:
+                for k in self.p.mro(args[0].cls):
+                    names.update(n.split('@')[0] for n in k.methods)
+                    names.update(k.attrs)
+            return sorted(names)
+        if isinstance(e.func, ast.Name) and e.func.id == 'globals' and 'globals' not in env and not args:
+            g = self.module_globals.setdefault(m.name, ADict())
+            return g
         if isinstance(e.func, ast.Name) and e.func.id in ('hasattr', 'getattr') and e.func.id not in env and len(args) >= 2 \
                 and isinstance(args[0], AObj) and isinstance(args[1], str):
             obj, nm = args[0], args[1]
